@@ -8,6 +8,7 @@ import (
 	"fmt"
 	"io"
 	"math"
+	"os"
 	"reflect"
 	"strings"
 	"time"
@@ -327,6 +328,81 @@ func runMedia() {
 			back, _ := io.ReadAll(r2)
 			if !bytes.Equal(h.gotOctet, data) || !bytes.Equal(back, data) {
 				mreport("octet-stream-changed", "PostOctet", fmt.Sprintf("%dB", len(data)), fmt.Sprintf("handler %dB, echoed back %dB", len(h.gotOctet), len(back)), "")
+			}
+		}
+	}
+	// ---- large values: one member per media type grown past the sizes at which buffers and caps of
+	// the HTTP stack change behaviour (64 KiB, 1 MiB, 10 MiB - net/http's own form cap -, 32 MiB - the
+	// multipart memory threshold); delivered whole or refused, never shortened
+	sizes := []int{64<<10 + 1, 1<<20 + 1, 10<<20 - 16, 10<<20 + 16, 12 << 20}
+	if os.Getenv("VERIF_TIER") == "thorough" {
+		sizes = append(sizes, 32<<20+16, 40<<20)
+	}
+	for _, n := range sizes {
+		big := strings.Repeat("y", n-3) + "end"
+		sentN := fmt.Sprintf("one member of %d bytes", n)
+		lenOr := func(s *string) string {
+			if s == nil {
+				return "nothing"
+			}
+			return fmt.Sprintf("%d bytes", len(*s))
+		}
+		total += 5
+		// urlencoded form member (an optional member behind it must arrive too)
+		h.gotForm, h.calls = nil, 0
+		f := api.PostFormReq{A: 7, B: api.NewOptString(big), C: []string{"tail"}, D: api.NewOptFloat64(0.5)}
+		if err := c.PostForm(ctx, &f); err != nil {
+			if h.calls != 0 {
+				mreport("error-reported-but-handler-ran", "PostForm", sentN, "", err.Error())
+			}
+		} else if h.gotForm == nil || h.gotForm.B.Value != big || len(h.gotForm.C) != 1 || h.gotForm.D != f.D || h.gotForm.A != 7 {
+			got := "nothing"
+			if h.gotForm != nil {
+				got = fmt.Sprintf("a=%d b=%d bytes c=%q d=%v", h.gotForm.A, len(h.gotForm.B.Value), h.gotForm.C, h.gotForm.D)
+			}
+			mreport("large-form-member-changed", "PostForm", sentN+" then c=[tail] d=0.5", got, "")
+		}
+		// JSON member
+		h.gotJSON, h.respJSON, h.calls = nil, responses[0], 0
+		v := vs[0]
+		v.S = big
+		if _, err := c.PostJSON(ctx, &v); err != nil {
+			if h.calls != 0 {
+				mreport("error-reported-but-handler-ran", "PostJSON", sentN, "", err.Error())
+			}
+		} else if h.gotJSON == nil || h.gotJSON.S != big {
+			var gs *string
+			if h.gotJSON != nil {
+				gs = &h.gotJSON.S
+			}
+			mreport("large-json-member-changed", "PostJSON", sentN, lenOr(gs), "")
+		}
+		// multipart field and file
+		h.gotMP, h.calls = nil, 0
+		req := &api.PostMultipartReq{A: big, N: api.NewOptInt(3), F: ht.MultipartFile{Name: "big.bin", File: strings.NewReader(big)}}
+		if err := c.PostMultipart(ctx, req); err != nil {
+			if h.calls != 0 {
+				mreport("error-reported-but-handler-ran", "PostMultipart", sentN, "", err.Error())
+			}
+		} else if h.gotMP == nil || h.gotMP.A != big || string(h.gotMPFile) != big || h.gotMP.N != req.N {
+			got := "nothing"
+			if h.gotMP != nil {
+				got = fmt.Sprintf("a=%d bytes file=%d bytes n=%v", len(h.gotMP.A), len(h.gotMPFile), h.gotMP.N)
+			}
+			mreport("large-multipart-member-changed", "PostMultipart", sentN+" as field and as file", got, "")
+		}
+		// text and octet stream
+		h.gotText, h.gotOctet = nil, nil
+		if r, err := c.PostText(ctx, api.PostTextReq{Data: strings.NewReader(big)}); err == nil {
+			back, _ := io.ReadAll(r)
+			if string(h.gotText) != big || string(back) != big {
+				mreport("text-changed", "PostText", sentN, fmt.Sprintf("handler %dB, echoed back %dB", len(h.gotText), len(back)), "")
+			}
+		}
+		if r, err := c.PostOctet(ctx, api.PostOctetReq{Data: strings.NewReader(big)}); err == nil {
+			back, _ := io.ReadAll(r)
+			if string(h.gotOctet) != big || string(back) != big {
+				mreport("octet-stream-changed", "PostOctet", sentN, fmt.Sprintf("handler %dB, echoed back %dB", len(h.gotOctet), len(back)), "")
 			}
 		}
 	}
